@@ -170,6 +170,7 @@ type Param struct {
 	G   string `json:"g"`
 	Opt bool   `json:"opt"`
 	B   string `json:"b"`
+	Emb bool   `json:"emb,omitempty"` // declared as an embedded (anonymous) field of the parameter object
 }
 
 type RegCfg struct {
@@ -303,6 +304,24 @@ func fnName(r *RegCfg) (string, error) {
 		}
 		return sb.String(), nil
 	}
+	// dependencies on interface types only: I0, I1 or both (in that order)
+	if (r.Shape == "ctor" || r.Shape == "ctorerr") && len(r.Params) > 0 {
+		x := ""
+		for _, p := range r.Params {
+			if (p.T == "I0" || p.T == "I1") && p.B == "-" && p.K == "-" && p.G == "-" && !p.Opt && !p.Emb {
+				x += p.T
+			} else {
+				x = ""
+				break
+			}
+		}
+		if x == "I0" || x == "I1" || x == "I0I1" {
+			if r.Po {
+				return fmt.Sprintf("C%d%s_pio_%s", r.Slot, r.Var, x), nil
+			}
+			return fmt.Sprintf("C%d%s_pi_%s", r.Slot, r.Var, x), nil
+		}
+	}
 	isB3 := len(r.Params) >= 3 && r.Params[0].B == "ctx" && r.Params[1].B == "scope" && r.Params[2].B == "prov"
 	switch r.Shape {
 	case "ctor", "ctorerr":
@@ -329,6 +348,8 @@ func fnName(r *RegCfg) (string, error) {
 				}
 				f := "p"
 				switch {
+				case p.Emb:
+					f = "e"
 				case p.G != "-":
 					f = "g"
 				case p.K != "-" && p.Opt:
